@@ -32,6 +32,12 @@ def cp (l : List Nat) : String :=
 def handle (args : List String) : String :=
   match args with
   | ["ping"] => "pong"
+  | "spec.nl" :: s :: i :: w :: files =>
+      ";".intercalate ((Spec.specNl s.toNat! i.toNat! w.toNat! none ((files.map uncp).flatMap readlines)).map cp)
+  | ["spec.tolisting", d, b] => hex (Spec.specToListing (if d == "1" then [13, 10] else [10]) (unhex b))
+  | ["spec.roundtrip", d, t] =>
+      hex ((((readlines (uncp t)).map (fun l => (rstripBy isSpacePy l).filter (· < 128))).filter (· ≠ [])).flatMap
+        (· ++ (if d == "1" then [13, 10] else [10])))
   | ["spec.upper", t] => cp (Spec.specUpper false (uncp t))
   | ["prettier", t] => ";".intercalate ((prettierText (uncp t)).map cp)
   | "nl" :: s :: i :: w :: files =>
